@@ -96,7 +96,8 @@ def name_keyed_dict_rule(fam, mod, rep, rid):
     dicts = {}   # rendering of the dictionary expression -> first site
     for cname, c in sorted(mod.classes.items()):
         is_ref = cname in fam.classes and ("refName" in fam.all_fields(cname))
-        is_ctxcls = any(tsast.type_str((fld.get("typeAnnotation") or {}).get("typeAnnotation")).startswith("Record<string,") for fld in c.fields.values())
+        # (a context class, not a validator: in the runtime classes a string parameter is a property name of the INPUT)
+        is_ctxcls = cname not in fam.classes and any(tsast.type_str((fld.get("typeAnnotation") or {}).get("typeAnnotation")).startswith("Record<string,") for fld in c.fields.values())
         for mname, m in c.methods.items():
             fn = m["function"]
             if fn.get("body") is None:
@@ -163,9 +164,11 @@ def merge_required_rule(mod, rep, rid):
     `(m.required ?? []).forEach(k => acc.add(k))`, `acc = new Set([...acc, ...m.required])`, `acc.push(...m.required)`."""
     n = 0
     for fname, d in sorted(mod.functions.items()):
-        body = d.get("body")
-        if body is None:
+        if d.get("body") is None:
             continue
+        # (local helpers folded back in: the result literal may be built by a `closedObjectSchema(props, required)`)
+        d = tsast.flatten_fn(mod, None, d)
+        body = d.get("body")
         ps = ts_common.fn_params(d)
         # accumulator: identifier rendered inside the value of a `required:` property of a returned object
         accs = set()
@@ -346,12 +349,25 @@ def run(cx, rep):
             continue
         fn = c.methods["schema"]["function"]
         al = ts_common.local_aliases(fn)
-        IS = [k for k, v in al.items() if ("this.%s.map(" % ixf) in s(v).replace(" ", "")]
+        def ix_list(v):
+            """the `this.<index signatures>.map(..)` expression a local is initialised with - written in place or
+            returned by a private helper"""
+            v = unparen(v)
+            if ("this.%s.map(" % ixf) in s(v).replace(" ", ""):
+                return v
+            if v.get("type") == "CallExpression":
+                r_ = tsast.resolve_local_call(mod, cname, v)
+                if r_ is not None:
+                    for x_ in walk(r_[0]):
+                        if x_["type"] == "CallExpression" and s(x_).replace(" ", "").startswith("this.%s.map(" % ixf):
+                            return x_
+            return None
+        IS = [k for k, v in al.items() if ix_list(v) is not None]
         rep.ob("C02.5", "%s/index-schemas" % cname, len(IS) == 1, "%s.schema: could not find the per-index-signature schema list" % cname, mod.loc(fn))
         if len(IS) != 1:
             continue
         isn = IS[0]
-        cb = [a for a in walk(al[isn]) if a["type"] in ("ArrowFunctionExpression", "FunctionExpression")]
+        cb = [a for a in walk(ix_list(al[isn])) if a["type"] in ("ArrowFunctionExpression", "FunctionExpression")]
         okcb = False
         if cb:
             # the callback may build the object itself or delegate to a private helper: see through it
@@ -492,6 +508,12 @@ def run(cx, rep):
                     src = unparen(al[a0["value"]])
                 n_ctx += 1
                 fresh = src.get("type") == "ObjectExpression"
+                if not fresh and src.get("type") == "CallExpression":
+                    # a local factory that returns a new object literal on every call (`newDescribeContext()`)
+                    r_ = tsast.resolve_local_call(mod, cname, src)
+                    if r_ is not None:
+                        rets = [r2 for r2 in tsast.walk_no_nested_fn(r_[0]["body"]) if r2["type"] == "ReturnStatement" and r2.get("argument") is not None]
+                        fresh = bool(rets) and all(unparen(r2["argument"]).get("type") == "ObjectExpression" for r2 in rets)
                 rep.ob("C02.7", "%s.%s/%s" % (cname, mname, mc[1]), fresh,
                        "%s.%s hands `%s` to %s(): the context is not created in this call, so marks left behind by a call that threw (or by a concurrent print) are seen by the next one" % (cname, mname, s(a0)[:50], mc[1]),
                        mod.loc(n), sample={"facade_method": mname, "callee": mc[1], "ctx": "fresh object literal"})
@@ -530,13 +552,15 @@ def run(cx, rep):
                             continue
                         if mc[1] == "storeDefinition" and s(mc[2][0]) == name:
                             ok = True
-                        if mc[1].startswith("ensure") and mc[2] and s(mc[2][0]) == name:
-                            # helper must itself contain mark+store for its first parameter
-                            _, hm = fam.resolve_method(cname, mc[1])
-                            if hm:
-                                p0 = hm["function"]["params"][0]["pat"]["value"]
-                                if any(method_call(y) and method_call(y)[1] == "storeDefinition" and s(method_call(y)[2][0]) == p0 for y in walk(hm["function"]) if y["type"] == "CallExpression"):
-                                    ok = True
+                        # a local helper that is handed the name and stores the definition for THAT parameter
+                        # (whatever it is called, wherever the name stands in its parameter list)
+                        r_ = tsast.resolve_local_call(mod, cname, prev)
+                        if r_ is not None and any(s(a_) == name for a_ in mc[2]):
+                            hps = ts_common.fn_params(r_[0])
+                            for i_, a_ in enumerate(mc[2]):
+                                if s(a_) == name and i_ < len(hps) and hps[i_]:
+                                    if any(method_call(y) and method_call(y)[1] == "storeDefinition" and s(method_call(y)[2][0]) == hps[i_] for y in walk(r_[0]) if y["type"] == "CallExpression"):
+                                        ok = True
                 rep.ob("C02.4", "%s.%s/%s" % (cname, mname, name), ok,
                        "%s.%s emits a $ref for `%s` that is not preceded by the ensure-definition sequence (guard -> mark -> schema -> store) for the same name" % (cname, mname, name),
                        mod.loc(call), sample={"site": "%s.%s" % (cname, mname), "name": name})
@@ -560,6 +584,9 @@ def run(cx, rep):
     # ---------------------------------------------------------------- C02.18
     rep.rule("C02.18", "a subschema built from an index signature does not constrain the declared keys")
     index_subschema_rule(fam, mod, rep, "C02.18")
+    # ---------------------------------------------------------------- C02.20
+    rep.rule("C02.20", "the optional-field wrapper always prints the null branch the object schema recognises optional properties by")
+    optional_null_branch_rule(fam, mod, rep, "C02.20")
     # ---------------------------------------------------------------- C02.19
     rep.rule("C02.19", "a discriminated union is only built on a property that is required in every member")
     discriminator_required_rule(cx, rep, "C02.19")
@@ -803,11 +830,15 @@ def closed_shape_merge_rule(fam, mod, rep, rid):
                         and any(x["type"] == "Identifier" and x["value"] in readers for x in walk(b)):
                     readers.add(mname)
     n_calls = 0
+    from rules.c16 import schema_reachable_methods
+    scopes = []
     for cname in sorted(fam.concrete()):
-        _, m = fam.resolve_method(cname, "schema")
-        if not m or m["function"].get("body") is None:
+        c_ = fam.classes.get(cname) or mod.classes.get(cname)
+        if c_ is None or "schema" not in c_.methods or c_.methods["schema"]["function"].get("body") is None:
             continue
-        fn = m["function"]
+        for mn in sorted(schema_reachable_methods(c_)):
+            scopes.append((cname, c_.methods[mn]["function"]))
+    for cname, fn in scopes:
         for x in walk(fn):
             if x["type"] == "CallExpression" and unparen(x["callee"]).get("type") == "Identifier" and unparen(x["callee"])["value"] in folders:
                 n_calls += 1
@@ -889,6 +920,29 @@ def index_subschema_rule(fam, mod, rep, rid):
     rep.floor(rid, "index subschemas combined with declared properties", n, 1)
 
 
+def optionality_erasers(F):
+    """accessors that forget the optionality: inherent methods of Optionality that hand out the payload, or build
+    `Required` in an arm for `Optional`"""
+    from facts import walk as hwalk
+    erasing = set()
+    for g, f in F.fns.items():
+        if not (f.impl_self or "").startswith("ast::runtype::Optionality") or g.startswith("<"):
+            continue
+        out = f.output or ""
+        if out == "bool":
+            continue
+        if "Optionality" not in out:
+            erasing.add(g)
+        elif g in F.hir:
+            for m in hwalk(F.hir[g]["body"]):
+                if m["k"] == "Match":
+                    for a in m["arms"]:
+                        if any((p.get("def") or "").endswith("Optionality::Optional") for p in hwalk(a["pat"])) and \
+                                any((x.get("def") or x.get("callee") or "").endswith("Optionality::Required") for x in hwalk(a["body"])):
+                            erasing.add(g)
+    return erasing
+
+
 def discriminator_required_rule(cx, rep, rid):
     """A union of objects is emitted as a discriminated union (dispatch on one property: the validator rejects a value
     as soon as that property is missing) only if the property is REQUIRED in every member.  The flat schema still
@@ -905,24 +959,7 @@ def discriminator_required_rule(cx, rep, rid):
         rep.anchor_missing(rid, "the printer function that builds `new AnyOfDiscriminatedRuntype(..)`; found %d" % len(builders))
         return
     b = builders[0]
-    # accessors that forget the optionality: inherent methods of Optionality that hand out the payload, or build
-    # `Required` in an arm for `Optional`
-    erasing = set()
-    for g, f in F.fns.items():
-        if not (f.impl_self or "").startswith("ast::runtype::Optionality") or "<" in g.split("::")[0] or g.startswith("<"):
-            continue
-        out = f.output or ""
-        if out == "bool":
-            continue
-        if "Optionality" not in out:
-            erasing.add(g)
-        elif g in F.hir:
-            for m in hwalk(F.hir[g]["body"]):
-                if m["k"] == "Match":
-                    for a in m["arms"]:
-                        if any((p.get("def") or "").endswith("Optionality::Optional") for p in hwalk(a["pat"])) and \
-                                any((x.get("def") or x.get("callee") or "").endswith("Optionality::Required") for x in hwalk(a["body"])):
-                            erasing.add(g)
+    erasing = optionality_erasers(F)
     callers = []
     for g, t in F.hir.items():
         f = F.fns.get(g)
@@ -957,3 +994,53 @@ def discriminator_required_rule(cx, rep, rid):
                "%s chooses the discriminator of a union without testing that the property is `Optionality::Required` in the members" % g,
                f.loc(), sample={"fn": g, "required_patterns": len(req)})
     rep.floor(rid, "printer functions that choose a discriminator", n, 1)
+
+
+def optional_null_branch_rule(fam, mod, rep, rid):
+    """Whether a property is OPTIONAL is not stored in the object class: ObjectRuntype.schema() decides it from the
+    SHAPE of the property's schema - a union with a `{type: "null"}` branch is stripped of that branch
+    (removeNullUnionBranch) and the key leaves `required`.  The wrapper class that stands for an optional field must
+    therefore print that shape on every path; a shortcut for member types that already admit null (`unknown`)
+    prints no null branch, the key stays required, and a document without it - a member of the type - is invalid.
+    Decided: the class the object class tests with `instanceof` to mark a member optional (in describe / hash256) has
+    a schema() every return of which is an object literal with an `anyOf` / `oneOf` array that contains the literal
+    `{type: "null"}`."""
+    # the optional-field wrapper: a class that object-member printers test with `instanceof`
+    wrappers = set()
+    for fname, d in list(mod.functions.items()) + [("%s.%s" % (cn, mn), m["function"]) for cn, c in fam.classes.items() for mn, m in c.methods.items()]:
+        if d.get("body") is None:
+            continue
+        for x in walk(d):
+            if x["type"] == "BinaryExpression" and x["operator"] == "instanceof" and unparen(x["right"]).get("type") == "Identifier":
+                nm = unparen(x["right"])["value"]
+                c = mod.classes.get(nm)
+                if c is None or "validate" not in c.methods or "schema" not in c.methods:
+                    continue
+                v = c.methods["validate"]["function"]
+                ps = ts_common.fn_params(v)
+                # .. whose validate() lets null / undefined through before consulting its member
+                if len(ps) > 1 and any(i_["type"] == "IfStatement" and s(i_["test"]).replace(" ", "") in ("(%s==null)" % ps[1], "(%s===null||%s===undefined)" % (ps[1], ps[1]))
+                                       and any(r_["type"] == "ReturnStatement" and s(r_.get("argument") or {}) == "true" for r_ in walk(i_["consequent"])) for i_ in walk(v)) or \
+                        (len(ps) > 1 and any(b_["type"] == "BinaryExpression" and b_["operator"] == "||" and s(b_["left"]).replace(" ", "") == "(%s==null)" % ps[1] for b_ in walk(v))):
+                    wrappers.add(nm)
+    n = 0
+    for nm in sorted(wrappers):
+        c = mod.classes[nm]
+        fn = tsast.flatten_fn(mod, nm, c.methods["schema"]["function"])
+        for r in tsast.walk_no_nested_fn(fn["body"]):
+            if r["type"] != "ReturnStatement" or r.get("argument") is None:
+                continue
+            n += 1
+            a = unparen(r["argument"])
+            ok = False
+            if a.get("type") == "ObjectExpression":
+                for p_ in a["properties"]:
+                    if p_["type"] == "KeyValueProperty" and tsast.prop_key(p_["key"]) in ("anyOf", "oneOf") and unparen(p_["value"]).get("type") == "ArrayExpression":
+                        for e_ in unparen(p_["value"])["elements"]:
+                            ee = unparen(e_["expression"]) if e_ else {}
+                            if ee.get("type") == "ObjectExpression" and any(q_["type"] == "KeyValueProperty" and tsast.prop_key(q_["key"]) == "type" and unparen(q_["value"]).get("value") == "null" for q_ in ee["properties"]):
+                                ok = True
+            rep.ob(rid, "%s.schema/null-branch#%d" % (nm, n - 1), ok,
+                   "%s.schema() has a return that is not a union with a `{type: 'null'}` branch (`%s`): the object class recognises an optional property by that branch, so the key stays in `required` and a document that omits the property - accepted by the validator - is invalid against the schema" % (nm, s(a)[:50]),
+                   mod.loc(r), sample={"class": nm})
+    rep.floor(rid, "returns of the optional-field wrapper's schema()", n, 1)
